@@ -6,10 +6,12 @@ spec -> code : StatsMC.tla enumerates every case of the bounded space (data x we
                index selection) as actions against the property-level definitions.  Every
                case also carries HOW its arrays are handed to the code: one REPRESENTATION
                per array argument (float64 / non-native byte order / float32 / signed and
-               unsigned integers / python list / strided, reversed and read-only views) and
-               the LATTICE the abstract integers are mapped to, value = (x + OFF) * unit with
-               a dyadic unit - six small lattices and five with |OFF| from 10^8 to 2^40 (data
-               whose offset is huge relative to their scatter: time stamps, coordinates).
+               unsigned integers of 8..64 bits / python list / strided, reversed and read-only
+               views) and the LATTICE the abstract integers are mapped to, value = (x + OFF) * unit
+               - six small lattices, five with |OFF| from 10^8 to 2^40 (data whose offset is huge
+               relative to their scatter: time stamps, coordinates) and six PLACEMENTS across the
+               whole range of an 8 / 16 / 32-bit signed or unsigned integer type (sums, differences,
+               products and squares of the elements exceed the element type).
                The (representation, lattice) tuples are the rows of a strength-2 orthogonal
                array spread over all cases by a hash, and a few data sets are run under every
                row (thorough tier: the full product).  Every enumerated case is concretised
@@ -37,26 +39,45 @@ from ..tlc import cfg
 
 NEEDS_EXT = True          # `import esutil` needs the compiled sub-packages
 
-# ---- lattices: value = (x + off) * unit, weight = w * wunit (unit, wunit dyadic) -----------------------
-# The NAMES and their attributes (integral / non-negative / large offset / ...) are declared in StatsMC.tla
-# (LatSeq); the numbers live here and are verified against the declared attributes (check_tables).
+# ---- lattices ---------------------------------------------------------------------------------------------
+# data / table values at (k + off) * unit, table nodes and query points at (k + xoff) * xunit, matrix entries at m * cunit,
+# weights at w * wunit.  The NAMES and their attributes (large offset, which integer representations hold them, largest datum
+# admitted) are declared in StatsMC.tla (LatSeq); the numbers live here and are verified against the declared attributes
+# (check_tables).
+def _lat(unit, off, wunit, xunit=None, xoff=None, cunit=None, kmax=60, ckmax=25):
+    unit = Fr(unit)
+    return dict(unit=unit, off=off, wunit=Fr(wunit), xunit=Fr(xunit) if xunit is not None else unit, xoff=off if xoff is None else xoff,
+                cunit=Fr(cunit) if cunit is not None else unit * unit, kmax=kmax, ckmax=ckmax)
+
+
 LATNUM = {
-    "unit": (Fr(1), 0, Fr(1)), "half-3": (Fr(1, 2), -3, Fr(1, 4)), "x4+2": (Fr(4), 2, Fr(8)),
-    "fine": (Fr(1, 1024), 0, Fr(1, 8)), "x8-6": (Fr(8), -6, Fr(1)), "w1024": (Fr(1), 5, Fr(1024)),
+    "unit": _lat(1, 0, 1), "half-3": _lat(Fr(1, 2), -3, Fr(1, 4)), "x4+2": _lat(4, 2, 8), "fine": _lat(Fr(1, 1024), 0, Fr(1, 8)),
+    "x8-6": _lat(8, -6, 1), "w1024": _lat(1, 5, 1024),
     # large offsets: every value is still exactly representable, differences of data are exact, so the exact
     # expectations of Stats.tla (computed on the un-offset integers) are unchanged: value-type outputs are shifted
     # back by the projection, deviation-type outputs are shift invariant
-    "big40": (Fr(1), 2 ** 40, Fr(1)), "stamp1e9": (Fr(1), 10 ** 9, Fr(1, 2)), "bigfrac33": (Fr(1, 64), 2 ** 33 + 5, Fr(1)),
-    "bigneg37": (Fr(4), -(2 ** 37), Fr(8)), "big1e8": (Fr(1), 10 ** 8 + 1, Fr(2)),
+    "big40": _lat(1, 2 ** 40, 1), "stamp1e9": _lat(1, 10 ** 9, Fr(1, 2)), "bigfrac33": _lat(Fr(1, 64), 2 ** 33 + 5, 1),
+    "bigneg37": _lat(4, -(2 ** 37), 8), "big1e8": _lat(1, 10 ** 8 + 1, 2),
+    # PLACEMENTS across the range of an integer type (data 0..6): signed centred (k-3)*unit ~ -max..max, unsigned k*unit ~ 0..max;
+    # abscissae (nodes 0..6, half-lattice queries -2..8) (k-3)*xunit resp. (k+2)*xunit; matrix entries (-4..9) * cunit.
+    # Sums, differences, products and squares of the elements exceed the element type; every number is exact in float32 too.
+    "span-s8": _lat(42, -3, 1, 24, -3, 14, 6, 9), "span-u8": _lat(42, 0, 1, 24, 2, 28, 6, 9),
+    "span-s16": _lat(10922, -3, 1, 6552, -3, 3640, 6, 9), "span-u16": _lat(10922, 0, 1, 6552, 2, 7281, 6, 9),
+    "span-s32": _lat(5 * 2 ** 27, -3, 1, 3 * 2 ** 27, -3, 7 * 2 ** 25, 6, 9),
+    "span-u32": _lat(5 * 2 ** 27, 0, 1, 3 * 2 ** 27, 2, 7 * 2 ** 26, 6, 9),
 }
-XMAX = 60                 # abstract data / query points stay within -4..XMAX (asserted)
+CKMIN = -4                # smallest matrix entry used
+WMAX = 32                 # largest total weight
 BIGOFF = 10 ** 8
 RELTOL4 = 16 * Fr(1, 2 ** 23)         # "to rounding" for float32 input: 16 ulp of float32
 INT31 = 2 ** 31 - 1
 IVL_KMAX = 256
-DTYPE = {"f8": "<f8", "f8be": ">f8", "f4": "<f4", "i8": "<i8", "i4be": ">i4", "u2": "<u2", "u8": "<u8"}
-KIND = {"f8": "f8", "f8be": "f8", "strided": "f8", "reversed": "f8", "readonly": "f8", "f4": "f4",
-        "i8": "int", "i4be": "int", "u2": "uint", "u8": "uint", "list": "list"}
+DTYPE = {"f8": "<f8", "f8be": ">f8", "f4": "<f4", "i8": "<i8", "i4be": ">i4", "u2": "<u2", "u8": "<u8",
+         "i1": "|i1", "i2": "<i2", "i2be": ">i2", "i4": "<i4", "u1": "|u1", "u4be": ">u4"}
+KIND = {"f8": "f8", "f8be": "f8", "strided": "f8", "reversed": "f8", "readonly": "f8", "f4": "f4", "list": "list",
+        "i8": "int", "i4be": "int", "i1": "int", "i2": "int", "i2be": "int", "i4": "int",
+        "u2": "uint", "u8": "uint", "u1": "uint", "u4be": "uint"}
+INTREPS = sorted(r for r, k in KIND.items() if k in ("int", "uint"))
 NITER = 4
 
 BOUNDS = {
@@ -76,7 +97,7 @@ INVARIANTS = ["DefsAgree", "MomentsSane", "MedSafe", "MedRefines", "ClipRefines"
               "ClipStatsDefined", "InterpRefines", "CovSane", "DesignCovers", "RepAdmissible"]
 # quantify over SUBSET x SUBSET of the positions in every clipping state: checked in a run of their own on a small scope
 CLIP_THEOREMS = ["ClipPredsAgree", "ClipTolSound"]
-CLIP_THEOREM_BOUNDS = {"quick": dict(ClipMaxLen=3, ClipMaxLenW=3, ClipVals={0, 1, 2, 3, 6}, ClipWts={1, 8}, NSigIdx={1, 2, 4}),
+CLIP_THEOREM_BOUNDS = {"quick": dict(ClipMaxLen=3, ClipMaxLenW=3, ClipVals={0, 1, 3, 6}, ClipWts={1, 8}, NSigIdx={1, 2, 4}),
                        "thorough": dict(ClipMaxLen=4, ClipMaxLenW=3, ClipVals={0, 1, 2, 3, 6}, ClipWts={1, 8}, NSigIdx={1, 2, 4})}
 ACTIONS = ["ChooseX1", "ChooseW1", "ChooseMu", "MedStart", "MedStep", "MedDone", "ChooseX2", "ChooseW2",
            "ChooseClipX", "ChooseClipW", "ClipStep", "ClipFinish", "ChooseNodes", "ChooseTabV", "ChooseCovDiag", "ChooseCovOff",
@@ -89,6 +110,27 @@ def _su():
 
 
 # ---- the declared tables (StatsMC.tla) against the numbers ---------------------------------------------
+def holds(rep, vals):
+    """the integer representation holds every value exactly"""
+    info = np.iinfo(np.dtype(DTYPE[rep]))
+    return all(Fr(v).denominator == 1 and info.min <= v <= info.max for v in vals)
+
+
+def lat_attrs(name):
+    """what StatsMC.tla has to declare for the lattice, computed from the numbers"""
+    l = LATNUM[name]
+    km, ck = l["kmax"], l["ckmax"]
+    data = [(k + l["off"]) * l["unit"] for k in (0, km)]
+    nodes = [(k + l["xoff"]) * l["xunit"] for k in (0, km)]
+    qs = [(Fr(k, 2) + l["xoff"]) * l["xunit"] for k in (-4, -3, 2 * km + 3, 2 * km + 4)]         # half-lattice, -2 .. kmax + 2
+    wts = [0, l["wunit"], WMAX * l["wunit"]]
+    unsigned = {r for r in INTREPS if KIND[r] == "uint"}
+    return dict(big=abs(l["off"]) >= BIGOFF, kmax=km, ckmax=ck,
+                fit=sorted(r for r in INTREPS if holds(r, data)), xfit=sorted(r for r in INTREPS if holds(r, nodes)),
+                qfit=sorted(r for r in INTREPS if holds(r, qs)), wfit=sorted(r for r in INTREPS if holds(r, wts)),
+                cfit=sorted(r for r in INTREPS if holds(r, [l["cunit"], ck * l["cunit"]] + ([] if r in unsigned else [CKMIN * l["cunit"]]))))
+
+
 def check_tables(opts):
     """the attributes StatsMC.tla declares for each lattice must hold for the numbers used here"""
     names = [l["name"] for l in opts["lats"]]
@@ -96,27 +138,30 @@ def check_tables(opts):
         raise MachineryError("lattice / representation names of StatsMC.tla and the adapter differ")
     tolbig, tolf4 = Fr(*opts["tolbig"]), Fr(*opts["tolf4"])
     for l in opts["lats"]:
-        unit, off, wunit = LATNUM[l["name"]]
-        want = dict(int=unit.denominator == 1, half=unit.denominator == 1 and unit.numerator % 2 == 0, nn=off >= 0, qnn=off >= 2,
-                    big=abs(off) >= BIGOFF, i4=unit.denominator == 1 and (abs(off) + XMAX + 4) * unit < 2 ** 31,
-                    wint=wunit.denominator == 1)
-        got = {k: bool(l[k]) for k in want}
+        num = LATNUM[l["name"]]
+        want = lat_attrs(l["name"])
+        got = {k: (sorted(l[k]) if isinstance(want[k], list) else (bool(l[k]) if isinstance(want[k], bool) else l[k])) for k in want}
         if got != want:
             raise MachineryError("lattice %s: StatsMC.tla declares %s, the numbers give %s" % (l["name"], got, want))
         # the tolerance the specification grants the clipping test covers 16 ulp of the operand scale
-        need = (RELTOL if want["big"] else RELTOL4) * (abs(off) + XMAX + 4)
+        need = (RELTOL if want["big"] else RELTOL4) * (abs(num["off"]) + num["kmax"] + 4)
         if need > (tolbig if want["big"] else tolf4):
             raise MachineryError("lattice %s: tolerance of StatsMC.tla below 16 ulp of the scale (%s)" % (l["name"], need))
-        # every lattice value (half-lattice points included) is exactly representable in binary64
-        for v in (-4, XMAX, Fr(1, 2)):
-            f = (v + off) * unit
-            if Fr(float(f)) != f:
+        # every lattice value (half-lattice points included) is exactly representable in binary64 - and in float32
+        # on the lattices float32 input is admitted on
+        vals = ([(v + num["off"]) * num["unit"] for v in (0, num["kmax"])] +
+                [(v + num["xoff"]) * num["xunit"] for v in (-2, num["kmax"] + 2, Fr(1, 2))] +
+                [m * num["cunit"] for m in (CKMIN, num["ckmax"])] + [WMAX * num["wunit"]])
+        for f in vals:
+            if Fr(float(f)) != f or (not want["big"] and Fr(float(np.float32(float(f)))) != f):
                 raise MachineryError("lattice %s: %s not representable" % (l["name"], f))
 
 
-def lat(name):
-    unit, off, wunit = LATNUM[name]
-    return dict(unit=unit, off=off, wunit=wunit, big=abs(off) >= BIGOFF)
+def lat(name, abscissa=False):
+    """the placement of data / values (default) or of table nodes and query points"""
+    l = LATNUM[name]
+    return dict(unit=l["xunit"] if abscissa else l["unit"], off=l["xoff"] if abscissa else l["off"], wunit=l["wunit"],
+                cunit=l["cunit"], big=abs(l["off"]) >= BIGOFF, kmax=l["kmax"], ckmax=l["ckmax"])
 
 
 # ---- abstract <-> concrete -----------------------------------------------------------------
@@ -158,9 +203,17 @@ def mk(vals, rep):
 
 def cdata(col, L, rep):
     for v in col:
-        if not -4 <= v <= XMAX:
-            raise MachineryError("abstract datum %s outside the range the lattices were verified for" % v)
+        if not 0 <= v <= L["kmax"]:
+            raise MachineryError("abstract datum %s outside the range the lattice was verified for" % v)
     return mk([(Fr(v) + L["off"]) * L["unit"] for v in col], rep)
+
+
+def xcols(c, L):
+    """the data columns of a wmom / get_stats case on its lattice"""
+    for v in flat(c["x"]):
+        if not 0 <= v <= L["kmax"]:
+            raise MachineryError("abstract datum %s outside the range the lattice was verified for" % v)
+    return cmat(c["x"], lambda col: [(Fr(v) + L["off"]) * L["unit"] for v in col], c["rep"]["x"])
 
 
 def cmat(cols, fn, rep):
@@ -282,7 +335,7 @@ def ex_wmom(c, ps):
     su = _su()
     L = lat(c["lat"])
     d = len(c["x"])
-    x = cmat(c["x"], lambda col: [(Fr(v) + L["off"]) * L["unit"] for v in col], c["rep"]["x"])
+    x = xcols(c, L)
     w = cmat(c["w"], lambda col: [Fr(v) * L["wunit"] for v in col], c["rep"]["w"])
     W = max(sum(wc) for wc in c["w"])
     need_den(W ** 4, "wmom total weight")
@@ -403,11 +456,11 @@ def ex_clip(c, ps):
 
 def ex_interp(c, ps):
     su = _su()
-    L, LV = lat(c["lat"]), lat(c["vlat"])
+    L, LV = lat(c["lat"], abscissa=True), lat(c["vlat"])
     us_abs = [Fr(*u) for u in c["us"]]
     for u in us_abs:
-        if not -4 <= u <= XMAX:
-            raise MachineryError("query point outside the verified range")
+        if not -2 <= u <= L["kmax"] + 2:
+            raise MachineryError("query point outside the range the lattice was verified for")
     xs = cdata(c["xs"], L, c["rep"]["x"])
     vs = cdata(c["vs"], LV, c["rep"]["v"])
     us = mk([(u + L["off"]) * L["unit"] for u in us_abs], c["rep"]["u"])
@@ -447,7 +500,7 @@ def ex_gstats(c, ps):
     su = _su()
     L = lat(c["lat"])
     d = len(c["x"])
-    x = cmat(c["x"], lambda col: [(Fr(v) + L["off"]) * L["unit"] for v in col], c["rep"]["x"])
+    x = xcols(c, L)
     w = cmat(c["w"], lambda col: [Fr(v) * L["wunit"] for v in col], c["rep"]["w"])
     fr = Frame(x, w)
     P = Proj(L, c["rep"]["x"] == "f4", flat(c["x"]))
@@ -487,8 +540,10 @@ def ex_gstats(c, ps):
 
 def ex_cov(c, ps):
     su = _su()
-    unit = lat(c["lat"])["unit"]
-    u2 = unit ** 2
+    LC = lat(c["lat"])
+    u2 = LC["cunit"]
+    if not all(CKMIN <= v <= LC["ckmax"] for row in c["m"] for v in row):
+        raise MachineryError("matrix entry outside the range the lattice was verified for")
     rep = c["rep"]["m"]
     m = mk([[Fr(v) * u2 for v in row] for row in c["m"]], rep)
     fr = Frame(m)
@@ -643,29 +698,39 @@ class How:
     def __init__(self, opts):
         self.reps = list(opts["reps"])
         self.lats = [l["name"] for l in opts["lats"]]
-        self.ok = {k: {tuple(t) for t in opts[k]} for k in ("okdata", "okwts", "okquery")}
+        self.first = self.lats[0]
+        self.kmax = {l["name"]: (l["kmax"], l["ckmax"]) for l in opts["lats"]}
+        self.ok = {k: {tuple(t) for t in opts[k]} for k in ("okdata", "okwts", "oknodes", "okquery")}
+        self.cfit = {l["name"]: set(l["cfit"]) for l in opts["lats"]}
         self.tols = {(t[0], t[1]): t[2] for t in opts["tols"]}
+
+    def lattice(self, rng, mx, cov=False):
+        """(a lattice that cannot hold the data is replaced by the first one, as StatsMC!LatFor does)"""
+        ln = rng.choice(self.lats)
+        return ln if mx <= self.kmax[ln][1 if cov else 0] else self.first
 
     def pick(self, rng, table, latname):
         r = rng.choice(self.reps)
-        return r if (r, latname) in self.ok[table] else "f8"
+        if (r, latname) in self.ok[table]:
+            return r
+        return "i8" if KIND[r] in ("int", "uint") and ("i8", latname) in self.ok[table] else "f8"
 
-    def data(self, rng):
-        ln = rng.choice(self.lats)
+    def data(self, rng, mx):
+        ln = self.lattice(rng, mx)
         rx = self.pick(rng, "okdata", ln)
         return {"rep": {"x": rx, "w": self.pick(rng, "okwts", ln)}, "lat": ln, "tol": self.tols[(ln, "f4" if rx == "f4" else "f8")]}
 
-    def table(self, rng):
-        ln, lv = rng.choice(self.lats), rng.choice(self.lats)
-        return {"rep": {"v": self.pick(rng, "okdata", lv), "x": self.pick(rng, "okdata", ln), "u": self.pick(rng, "okquery", ln)},
+    def table(self, rng, mxx, mxv):
+        ln, lv = self.lattice(rng, mxx), self.lattice(rng, mxv)
+        return {"rep": {"v": self.pick(rng, "okdata", lv), "x": self.pick(rng, "oknodes", ln), "u": self.pick(rng, "okquery", ln)},
                 "lat": ln, "vlat": lv}
 
     def cov(self, rng, m):
-        ln = rng.choice(self.lats)
+        ents = [v for row in m for v in row]
+        ln = self.lattice(rng, max(ents), cov=True)
         r = rng.choice(self.reps)
-        okint = ("i8", ln) in self.ok["okdata"]           # = the lattice is integral
-        if r == "list" or (KIND[r] in ("int", "uint") and not okint) or (KIND[r] == "uint" and min(v for row in m for v in row) < 0):
-            r = "f8"
+        if r == "list" or (KIND[r] in ("int", "uint") and r not in self.cfit[ln]) or (KIND[r] == "uint" and min(ents) < 0):
+            r = "i8" if KIND[r] == "int" and "i8" in self.cfit[ln] else "f8"
         return {"rep": {"m": r}, "lat": ln}
 
 
@@ -675,50 +740,51 @@ def seeded_jobs(rng, n, opts):
     how = How(opts)
     for _ in range(n):
         kind = rng.choice(["wm", "wm", "wmNd", "clu", "clu", "clw", "ip", "cv"])
+        small = rng.random() < 0.4          # data within 0..6: every lattice (the type-spanning placements too) can hold them
         if kind == "wm":
             ln = rng.randint(5, 12)
-            x = [rng.randint(0, 12) for _ in range(ln)]
+            x = [rng.randint(0, 6 if small else 12) for _ in range(ln)]
             w = [rng.choice([0, 1, 1, 2, 4]) for _ in range(ln)]
             while sum(w) > 16:
                 w[rng.randrange(ln)] = 0
             if sum(w) == 0:
                 w[rng.randrange(ln)] = 1
-            h = how.data(rng)
+            h = how.data(rng, max(x))
             out.extend(jobs_of({"op": "wm", "x": [x], "w": [w], "rep": h["rep"], "lat": h["lat"]}, opts))
         elif kind == "wmNd":
             ln, d = rng.randint(2, 6), rng.randint(2, 3)
-            x = [[rng.randint(0, 8) for _ in range(ln)] for _ in range(d)]
+            x = [[rng.randint(0, 6 if small else 8) for _ in range(ln)] for _ in range(d)]
             nw = rng.choice([1, d])
             w = [[rng.choice([0, 1, 2, 3]) for _ in range(ln)] for _ in range(nw)]
             for col in w:
                 if sum(col) == 0:
                     col[rng.randrange(ln)] = 1
-            h = how.data(rng)
+            h = how.data(rng, max(max(col) for col in x))
             out.extend(jobs_of({"op": "wm", "x": x, "w": w, "rep": h["rep"], "lat": h["lat"]}, opts))
         elif kind in ("clu", "clw"):
             hasw = kind == "clw"
             ln = rng.randint(5, 10) if hasw else rng.randint(6, 24)
-            centre = rng.randint(8, 14)
+            centre = rng.randint(2, 4) if small else rng.randint(8, 14)
             x = [centre + rng.choice([-1, 0, 0, 1, 2, -2]) for _ in range(ln)]
             for _o in range(rng.randint(0, 2)):                    # 0..2 injected outliers
-                x[rng.randrange(ln)] = rng.choice([0, 1, 30, 40, centre + 6, centre - 6])
+                x[rng.randrange(ln)] = rng.choice([0, 6] if small else [0, 1, 30, 40, centre + 6, centre - 6])
             w = [rng.choice([1, 1, 2, 3]) for _ in range(ln)] if hasw else [1] * ln
             while hasw and sum(w) > 16:
                 w[w.index(max(w))] = 1
             ns = nsigs[rng.randrange(len(nsigs))]
-            out.extend(jobs_of(dict(how.data(rng), op="cl", x=x, w=w, hasw=hasw, nsn=ns[0], nsd=ns[1], niter=rng.choice([3, 4, 6, 10])),
+            out.extend(jobs_of(dict(how.data(rng, max(x)), op="cl", x=x, w=w, hasw=hasw, nsn=ns[0], nsd=ns[1], niter=rng.choice([3, 4, 6, 10])),
                                opts))
         elif kind == "ip":
-            nn = rng.randint(2, 8)
-            xs = sorted(rng.sample(range(0, 21), nn))
-            vs = [rng.randint(0, 12) for _ in range(nn)]
-            us = [rat(Fr(rng.randint(-4, 48), 2)) for _ in range(12)] + [[v, 1] for v in xs[:3]]     # half-lattice, 2 beyond either end
-            out.append(("interp", dict(how.table(rng), xs=xs, vs=vs, us=us), [{"v": 1}]))
+            nn = rng.randint(2, 7 if small else 8)
+            xs = sorted(rng.sample(range(0, 7 if small else 21), nn))
+            vs = [rng.randint(0, 6 if small else 12) for _ in range(nn)]
+            us = [rat(Fr(rng.randint(-4, 2 * xs[-1] + 4), 2)) for _ in range(12)] + [[v, 1] for v in xs[:3]]     # half-lattice, 2 beyond either end
+            out.append(("interp", dict(how.table(rng, xs[-1], max(vs)), xs=xs, vs=vs, us=us), [{"v": 1}]))
         else:
             nn = rng.randint(3, 6)
             m = [[0] * nn for _ in range(nn)]
             for i in range(nn):
-                m[i][i] = rng.choice([1, 2, 4, 9, 16, 25])
+                m[i][i] = rng.choice([1, 2, 4, 9] if small else [1, 2, 4, 9, 16, 25])
                 for j in range(i):
                     m[i][j] = m[j][i] = rng.randint(-4, 4)
             out.append(("cov", dict(how.cov(rng, m), m=m), [{"v": 1}]))
@@ -741,6 +807,8 @@ def census(recs, cen):
         big = lat(c["lat"])["big"] or (r["op"] == "interp" and lat(c["vlat"])["big"])
         if big and r["op"] != "cov":
             cen["large_offset:" + r["op"]] = cen.get("large_offset:" + r["op"], 0) + 1
+        if any(c.get(k, "").startswith("span") for k in ("lat", "vlat")) and any(KIND[rp] in ("int", "uint") and rp not in ("i8", "u8") for rp in c["rep"].values()):
+            cen["type_spanning_integers:" + r["op"]] = cen.get("type_spanning_integers:" + r["op"], 0) + 1
         if has_interval(r):
             cen["interval:" + r["op"]] = cen.get("interval:" + r["op"], 0) + 1
         if r["op"] == "clip" and Fr(*c["tol"]) > 0:
@@ -828,7 +896,8 @@ def run(ctx):
     pairs = cen.pop("pairs")
     need = (["rep:" + r for r in opts["reps"]] + ["lat:" + l["name"] for l in opts["lats"]] +
             ["large_offset:" + op for op in ("wmom", "wmedian", "clip", "interp", "gstats")] +
-            ["interval:" + op for op in ("wmom", "clip", "interp", "gstats")] + ["clip_with_tolerance"])
+            ["interval:" + op for op in ("wmom", "clip", "interp", "gstats")] + ["clip_with_tolerance"] +
+            ["type_spanning_integers:" + op for op in EXEC])
     missing = [k for k in need if not cen.get(k)]
     if missing and not ctx.violations:
         raise MachineryError("vacuous run: nothing exercised %s" % missing)
@@ -839,7 +908,8 @@ def run(ctx):
                 "re-observed); every interpolation table of 2..%d nodes from %s with values from %s at %d query points (inside, at "
                 "nodes, outside); every symmetric matrix up to %dx%d with diagonal from %s and off-diagonal in %d..%d - all exported "
                 "from StatsMC.tla, each with one (representation per array argument, lattice) row of a pairwise-covering design over "
-                "%d representations (%s) and %d lattices (%d of them with offsets 10^8..2^40), plus a few data sets of every kind under "
+                "%d representations (%s) and %d lattices (%d of them with offsets 10^8..2^40, %d placing the values across the whole range of "
+                "an 8/16/32-bit integer type), plus a few data sets of every kind under "
                 "%s; plus %d seeded larger cases with drawn representations / lattices. A case is distinct by its abstract record "
                 "(op, data, representation, lattice) and counted once; evaluations count the calls made on it (option settings)." %
                 (B["MinLen"], B["MaxLen"], len(B["Vals"]), sorted(B["Wts"]), B["MaxW"], opts["mus"], B["N2Max"], B["ClipMaxLen"],
@@ -847,6 +917,7 @@ def run(ctx):
                  NITER, B["TabMax"], sorted(B["TabX"]), sorted(B["TabV"]), 2 * (max(B["TabX"]) - min(B["TabX"])) + 9,
                  B["CovMaxN"], B["CovMaxN"], sorted(B["CovDiag"]), -B["CovShift"], B["CovOffN"] - B["CovShift"],
                  len(opts["reps"]), ", ".join(opts["reps"]), len(opts["lats"]), sum(1 for l in opts["lats"] if l["big"]),
+                 sum(1 for l in opts["lats"] if l["name"].startswith("span")),
                  "every row of the design" if ctx.quick else "the full product representation x representation x lattice", len(sj)))
     ctx.exhaustive = True
     ctx.note(bounds={k: sorted(v) if isinstance(v, set) else v for k, v in B.items()}, exported_cases=nkinds,
@@ -866,6 +937,10 @@ def run(ctx):
         "weighted sigma_clip / get_stats error: either documented wmom convention accepted; wmom moments with inputmean: about the "
         "supplied or the weighted mean accepted",
         "interplin on large-offset lattices: operand scale of the result = max|v| + max|slope| * (max|x|,|u| + span), offsets included",
+        "integer representations: a lattice is used with an integer type only where the type holds every value exactly; on the "
+        "type-spanning placements (values about -max..max, unsigned about 0..max of int8/16/32) the data, table values, nodes, "
+        "integer query points and matrix entries fit the type while their sums, differences, products and squares do not - the "
+        "results must still follow the definitions (computed by the spec on the small abstract integers)",
         "cov2cor / cor2cov take arrays (a python list has no .shape): list representation not used for matrices; unsigned only for "
         "non-negative matrices / lattices",
         "inputmean given as an [ndim] array, boxcar_average and all-zero weights are outside the statement and not exercised",
